@@ -1,5 +1,5 @@
 """C13 — every reported observable equals its definition on the current state (plumbing + definition shape)."""
-from ..rules import dark, jump, observables, once
+from ..rules import canon, dark, jump, observables, once
 
 META = {
     "title": "Every reported observable equals its definition on the current state",
@@ -28,3 +28,4 @@ def check(ctx):
     observables.sv_definitions(ctx)
     ctx.floor("ROLE-callback", 9)
     ctx.floor("OBSDEF", 9)
+    canon.gauge_moves(ctx)
